@@ -633,17 +633,16 @@ def bounded_text_roundtrip(reg, tier, seed):
             except Exception:  # noqa
                 stats["unencodable"] += 1
                 return
-            if nonfinite is None:
-                if not canonicalize_subfields(m2):
-                    stats["discarded_noncanonical"] += 1
-                    return
-                try:
-                    data = rt.ser.serialize(m2)
-                    m2 = rt.de.deserialize(data)
-                    _ = m2.blocks
-                except Exception:  # noqa
-                    stats["unencodable"] += 1
-                    return
+            if not canonicalize_subfields(m2):
+                stats["discarded_noncanonical"] += 1
+                return
+            try:
+                data = rt.ser.serialize(m2)
+                m2 = rt.de.deserialize(data)
+                _ = m2.blocks
+            except Exception:  # noqa
+                stats["unencodable"] += 1
+                return
             m2.direction = m.direction
             tables = replacement_tables(m2, rng)
             combos = [(False, tables[0]), (False, tables[2]), (True, tables[0]), (True, tables[1]), (True, tables[2]), (True, tables[3]), (True, tables[4])]
